@@ -29,7 +29,7 @@ def run(ck):
         ck.verdict(cs.name in APPEND, "1", "T6-provenance", ii, "appends-to-idles", "new idles are appended (insertion order = execution order)", "insert_idle adds with `%s`: idles no longer run in insertion order" % cs.name, site=ii.where(cs.bb))
         bad = T.t2_all_exits(ii, [0], [cs.bb])
         ck.verdict(bad is None, "1", "T2-all-exits", ii, "always-queued", "every call queues the idle", "insert_idle can return without queuing the callback", site=ii.where(cs.bb))
-        rets = [st for i, j, st in ii.statements() if st["s"] == "assign" and st["pl"]["l"] == 0 and st["rv"]["r"] == "agg" and not ii.is_cleanup(i)]
+        rets = [st for i, j, st in ii.statements() if st["s"] == "assign" and st["pl"]["l"] in T.ret_locals(ii) and st["rv"]["r"] == "agg" and not ii.is_cleanup(i)]
         shared = False
         for st in rets:
             r_ret = {r for r, p in ii.resolve(st["rv"]["fields"][0])}
